@@ -1092,6 +1092,32 @@ where
     }
 }
 
+/// Is this UPDATE an End-of-RIB marker?
+///
+/// RFC 4724 section 2: the marker is an UPDATE with no reachable NLRI and
+/// empty withdrawn NLRI (or, for other address families, one that consists
+/// only of an empty MP_UNREACH_NLRI attribute). `UpdateMessage::is_eor()`
+/// only looks at the MP_UNREACH_NLRI attribute, so an UPDATE that carries an
+/// empty MP_UNREACH_NLRI next to ordinary announcements or withdrawals is
+/// reported as End-of-RIB too; treating it as a marker would drop its routes
+/// when it completes the initial table dump.
+pub fn end_of_rib(update: &UpdateMessage<Bytes>) -> Option<AfiSafiType> {
+    let no_announcements = update
+        .announcements()
+        .map(|mut iter| iter.next().is_none())
+        .unwrap_or(false);
+    let no_withdrawals = update
+        .withdrawals()
+        .map(|mut iter| iter.next().is_none())
+        .unwrap_or(false);
+    match update.is_eor() {
+        Ok(Some(afi_safi)) if no_announcements && no_withdrawals => {
+            Some(afi_safi)
+        }
+        _ => None,
+    }
+}
+
 impl BmpState {
     pub fn new<T: AnyStatusReporter>(
         source_id: ingress::IngressId,
